@@ -7,7 +7,22 @@ Pillow, and compares pixels with Pillow's own conversion + BOX resize of a fresh
 the source) and on model/KittyChunks.v inside Coq (model/KittyChunksTie.v: [check_*]
 compares the observed token list with the model's AND with the specification written
 from the property text, which is the property oracle).  Only lengths, flags and keys go
-to Coq — never payload bytes."""
+to Coq — never payload bytes.
+
+Round 4 — two more dimensions of the property's quantifier are generated, modelled
+(model/GfxPlan.v) and judged:
+ * the render method as TWO independent inputs: the method set with set_render_method()
+   (instance or class level, any letter case) and the per-render override (+L/+W/+A of a
+   format specifier, method= of the renderer entry), every pair x up-/down-scaled x
+   source heights not divisible by the number of lines;
+ * the terminal environment CHANGING DURING ONE RENDER: the image modules' get_cell_size /
+   get_terminal_size / get_cell_ratio answer the old environment to the first n reads and
+   the new one afterwards, for EVERY n up to the number of reads of that render
+   (fixed and dynamic sizes, kitty and iterm2, LINES and WHOLE).  The specification never
+   looks at the cell size: every output must be self-consistent (s x v x bytes-per-pixel,
+   strip count, strips stitching to the pixels Pillow gives at the transmitted
+   resolution); the model side replays the render plan on the recorded answers and
+   demands the plan's number of reads (geometry from a single read)."""
 from __future__ import annotations
 
 import json
@@ -21,6 +36,26 @@ HEADER = ("From Coq Require Import String.\nFrom Coq Require Import List ZArith 
           "From TI Require Import gen.Consts model.KittyChunks model.KittyChunksTie.\n"
           "Local Open Scope string_scope.\nLocal Open Scope nat_scope.\n")
 METHOD = {"lines": "Lines", "whole": "Whole", "anim": "Anim"}
+
+
+def set_over(c):
+    """(method set on the image/class or None, per-render override or None), lower case —
+    the same derivation as impl_c03.set_over."""
+    if "override" in c or "set_method" in c:
+        sm = c.get("set_method")
+        return (sm.lower() if sm else None), c.get("override")
+    if c.get("via", "format") in ("setmethod", "str"):
+        return c["method"], None
+    return None, c["method"]
+
+
+def effective(setm, over):
+    """the documented effective method (only used to label cases; the judgement is Coq's)"""
+    return over or setm or "lines"
+
+
+def mopt(m):
+    return f"(Some {METHOD[m]})" if m else "None"
 Z = core.z
 INT32_MAX = 2**31 - 1
 
@@ -122,6 +157,8 @@ def kitty_random_case(rng):
         c.update(via="renderer", blend=rng.random() < 0.5)
     elif rng.random() < 0.1:
         c.update(via="str", alpha=[40 / 255], z=0, mix=False, compress=4)
+    rand_set_over(rng, c, ["lines", "whole"])
+    rand_envchg(rng, c)
     if rng.random() < 0.08:
         c["size"] = rng.choice(["FIT", "ORIGINAL", "AUTO", "FIT_TO_WIDTH"])
         c["cell"] = [rng.randint(4, 12), rng.randint(8, 24)]
@@ -181,7 +218,110 @@ def iterm2_case(rng, animated=False):
         c["src"], c["source"] = rand_source(rng, ow, oh, want_file=rng.choice([None, "file", "pil_file"]))
     if rng.random() < 0.1:
         c.update(via="str", alpha=[40 / 255], mix=False, compress=4)
+    if c["src"].get("name") != "anim.webp":  # (800 kB native payload: see above)
+        rand_set_over(rng, c, ["lines", "whole", "anim"])
+    rand_envchg(rng, c)
     return c
+
+
+def spell(rng, m):
+    """set_render_method() accepts any letter case"""
+    return m if m is None else rng.choice([m, m, m.upper(), m.capitalize()])
+
+
+def rand_set_over(rng, c, methods):
+    """half of the random cases: the set method and the override chosen INDEPENDENTLY"""
+    if rng.random() < 0.5:
+        return
+    setm = rng.choice([None] + methods)
+    over = None if c.get("via") == "str" else rng.choice([None] + methods)
+    c.update(set_method=spell(rng, setm), set_level=rng.choice(["instance", "instance", "class"]), override=over,
+             method=effective(setm, over))
+    if c.get("via") == "setmethod":
+        c["via"] = "format"
+
+
+def rand_envchg(rng, c, p=0.2):
+    """some random cases: the environment changes after the n-th read of the render"""
+    if rng.random() < p and not isinstance(c["size"], str):
+        cw, ch = c["cell"]
+        c["envchg"] = {"at": rng.randint(1, 3), "cell": [max(1, cw + rng.randint(-3, 3)), max(1, ch + rng.choice([-7, -2, -1, 1, 2, 9]))],
+                       "term": [rng.randint(20, 100), rng.randint(8, 40)], "ratio": rng.choice([0.4, 0.5, 1.0])}
+
+
+def gfx(style, rng, **kw):
+    c = {"style": style, "alpha": None, "z": 0, "mix": False, "blend": True, "compress": rng.choice([0, 4]),
+         "via": "format", "term": {"kitty": "kitty", "iterm2": "iterm2"}[style], "jq": None, "rff": None}
+    c.update(kw)
+    return c
+
+
+def method_pair_cases(rng):
+    """(set method, per-render override) as independent choices x (up-scaled / down-scaled) x source
+    heights that are not a multiple of the number of lines (and one smaller than it)."""
+    cs = []
+    for style, methods in (("kitty", [None, "lines", "whole"]), ("iterm2", [None, "lines", "whole", "anim"])):
+        for setm in methods:
+            for over in methods:
+                for scale in ("up", "down", "tiny"):
+                    rh = rng.randint(2, 5)
+                    rw = rng.randint(1, 4)
+                    cw, ch = rng.randint(3, 12), rng.randint(5, 24)
+                    if scale == "up":      # render area >= source area: WHOLE transmits the source resolution
+                        ow = rng.randint(1, rw * cw)
+                        oh = rng.choice([h for h in range(rh + 1, rh * ch + 1) if h % rh] or [rh + 1])
+                    elif scale == "tiny":  # fewer source rows than lines
+                        ow, oh = rng.randint(1, rw * cw), rng.randint(1, rh - 1)
+                    else:                  # source larger than the render
+                        ow = rw * cw + rng.randint(1, 20)
+                        oh = rng.choice([h for h in range(rh * ch + 1, rh * ch + 30) if h % rh])
+                    mode = rng.choice(["RGB", "RGBA"])
+                    via = rng.choice(["format", "format", "renderer"]) if over else rng.choice(["format", "renderer", "str"])
+                    c = gfx(style, rng, method=effective(setm, over), set_method=spell(rng, setm),
+                            set_level=rng.choice(["instance", "instance", "class"]), override=over,
+                            size=[rw, rh], cell=[cw, ch], via=via,
+                            src=new_src(rng, mode, ow, oh, style=rng.choice([0, 1, 4])), source="pil",
+                            alpha=[0.5] if mode == "RGBA" and via != "str" else None)
+                    if via == "str":
+                        c.update(alpha=[40 / 255], compress=4)
+                    cs.append(c)
+    return cs
+
+
+def env_change_cases(rng, quick):
+    """The environment changes DURING one render, at every position ("at": "each" = after the
+    n-th read, for every n up to the number of reads of that render): cell size smaller / larger /
+    narrower, together with another terminal size and cell ratio.  Fixed sizes and dynamic sizes
+    (re-computed by _renderer at the start of the render: more reads), kitty and iterm2, LINES and
+    WHOLE; for iterm2 WHOLE a readable file at the read-from-file boundary (the gate reads the
+    cell size once more)."""
+    cs = []
+    changes = [([10, 20], [8, 16]), ([8, 16], [10, 20]), ([9, 18], [9, 17]), ([7, 15], [11, 15])]
+    for style in ("kitty", "iterm2"):
+        for method in ("lines", "whole"):
+            for k, (a, b) in enumerate(changes):
+                for dynamic in (False, True):
+                    if quick and dynamic and k >= 2:
+                        continue
+                    rw, rh = rng.randint(2, 5), rng.randint(2, 4)
+                    setm, over = rng.choice([(method, None), (None, method), (rng.choice(["lines", "whole"]), method)])
+                    c = gfx(style, rng, method=method, set_method=setm, override=over, cell=a,
+                            size=rng.choice(["FIT", "AUTO", "FIT_TO_WIDTH", "ORIGINAL"]) if dynamic else [rw, rh],
+                            via="renderer" if dynamic else rng.choice(["format", "renderer"]),
+                            envchg={"at": "each", "cell": b, "term": rng.choice([[30, 12], [16, 8]]), "ratio": 0.4})
+                    if dynamic:
+                        c.update(dynamic=True, term_size=[24, 10])
+                    if style == "iterm2" and method == "whole":
+                        # area of the source between the render areas of the two environments
+                        lo, hi = sorted((rw * a[0] * rh * a[1], rw * b[0] * rh * b[1]))
+                        ow, oh = factor2(max(1, rng.randint(lo, hi)), rng) if not dynamic else (rng.randint(20, 60), rng.randint(20, 60))
+                        c.update(src=new_src(rng, "RGB", ow, oh, fmt="PNG"), source="file", rff=True)
+                    else:
+                        mode = rng.choice(["RGB", "RGBA"])
+                        c.update(src=new_src(rng, mode, rng.randint(20, 60), rng.randint(20, 90)), source="pil",
+                                 alpha=[0.5] if mode == "RGBA" else None)
+                    cs.append(c)
+    return cs
 
 
 def unit_cases(rng, quick):
@@ -282,11 +422,17 @@ def zlist(xs):
     return core.coq_list(xs, Z)
 
 
+def reads_term(r):
+    return core.coq_list(r["reads_in"], lambda p: f"({Z(p[0])}, {Z(p[1])})")
+
+
 def kitty_term(c, r):
-    return ("{| kc_method := %s; kc_rw := %s; kc_rh := %s; kc_cw := %s; kc_ch := %s; kc_ow := %s; kc_oh := %s; "
+    setm, over = set_over(c)
+    return ("{| kc_set := %s; kc_over := %s; kc_reads := %s; kc_other_reads := %d; kc_rw := %s; kc_rh := %s; kc_cw := %s; kc_ch := %s; kc_ow := %s; kc_oh := %s; "
             "kc_alpha := %d; kc_opaque := %s; kc_z := %s; kc_level := %d; kc_blend := %s; kc_items := %s; "
             "kc_rawlen := %s; kc_pix := %s; kc_lex := %s; kc_fill := %s; kc_keep := %s |}" % (
-                METHOD[c["method"]], Z(r["rsize"][0]), Z(r["rsize"][1]), Z(c["cell"][0]), Z(c["cell"][1]),
+                mopt(setm), mopt(over), reads_term(r), r["other_in"],
+                Z(r["rsize"][0]), Z(r["rsize"][1]), Z(c["cell"][0]), Z(c["cell"][1]),
                 Z(r["orig"][0]), Z(r["orig"][1]), alpha_code(c["alpha"]), b(r["mode_class"] == 0), Z(c["z"]),
                 c["compress"], b(c["blend"]), core.coq_list(r["items"], item_term), zlist(r["rawlen"]),
                 b(r["pix"]), b(r["lex_ok"]), b(r["fill_ok"]), b(r["size_kept"])))
@@ -307,11 +453,13 @@ def orec_term(o):
 def iterm2_term(c, r):
     jq = c.get("jq")
     rff = c.get("rff")
-    return ("{| ic_method := %s; ic_rw := %s; ic_rh := %s; ic_cw := %s; ic_ch := %s; ic_ow := %s; ic_oh := %s; "
+    setm, over = set_over(c)
+    return ("{| ic_set := %s; ic_over := %s; ic_reads := %s; ic_other_reads := %d; ic_rw := %s; ic_rh := %s; ic_cw := %s; ic_ch := %s; ic_ow := %s; ic_oh := %s; "
             "ic_alpha := %d; ic_mode_class := %d; ic_animated := %s; ic_readable := %s; ic_rff := %s; ic_jq := %s; "
             "ic_konsole := %s; ic_oscs := %s; ic_untouched := %s; ic_pix := %s; ic_lex := %s; ic_nl := %d; "
             "ic_keep := %s |}" % (
-                METHOD[c["method"]], Z(r["rsize"][0]), Z(r["rsize"][1]), Z(c["cell"][0]), Z(c["cell"][1]),
+                mopt(setm), mopt(over), reads_term(r), r["other_in"],
+                Z(r["rsize"][0]), Z(r["rsize"][1]), Z(c["cell"][0]), Z(c["cell"][1]),
                 Z(r["orig"][0]), Z(r["orig"][1]), alpha_code(c["alpha"]), r["mode_class"], b(r["animated"]),
                 b(r["readable"]), b(True if rff is None else rff), Z(-1 if jq is None else jq),
                 b(c.get("term") == "konsole"), core.coq_list(r["oscs"], orec_term), b(r["untouched"]),
@@ -325,9 +473,19 @@ OVERSIZE = []
 
 
 def evaluate(cases, tag="c03"):
-    """-> (codes per case (int), errors, impl results).  A case the library refused to
-    render (exception) or the driver could not handle gets code 2 / an error."""
-    impl = core.run_impl_parallel("impl_c03.py", cases, timeout=600)
+    """-> (codes per case (int), errors, impl results, cases).  A case the library refused
+    to render (exception) or the driver could not handle gets code 2 / an error.  A case
+    with an environment change at "each" position comes back as one case per position."""
+    impl0 = core.run_impl_parallel("impl_c03.py", cases, timeout=600)
+    cases0, cases, impl = cases, [], []
+    for c, r in zip(cases0, impl0):
+        if "each" in r:
+            for at, rr in r["each"]:
+                cases.append({**c, "envchg": {**c["envchg"], "at": at}})
+                impl.append(rr)
+        else:
+            cases.append(c)
+            impl.append(r)
     codes = [0] * len(cases)
     errors = []
     groups = {"kcase": ([], [], "bad check_kitty cases"), "ucase": ([], [], "bad check_unit cases"),
@@ -360,7 +518,7 @@ def evaluate(cases, tag="c03"):
         errors += errs
         for idx, code in bad:
             codes[owner[idx]] = code
-    return codes, errors, impl
+    return codes, errors, impl, cases
 
 
 def simpler(case):
@@ -375,6 +533,21 @@ def simpler(case):
         if case.get("noise", True):
             out.append({**case, "noise": False})
         return out
+    if case.get("envchg"):
+        out.append({**case, "envchg": None})
+        chg = case["envchg"]
+        for k in ("term", "ratio"):
+            if chg.get(k) is not None:
+                out.append({**case, "envchg": {**chg, k: None}})
+    if case.get("dynamic"):
+        out.append({**case, "dynamic": False, "size": [3, 2]})
+    if "set_method" in case or "override" in case:
+        if case.get("set_level") == "class":
+            out.append({**case, "set_level": "instance"})
+        if case.get("set_method") and case["set_method"] != case["set_method"].lower():
+            out.append({**case, "set_method": case["set_method"].lower()})
+        if case.get("set_method") and case.get("override"):
+            out.append({**case, "set_method": None})
     for k, v in (("via", "format"), ("blend", True), ("mix", False), ("z", 0), ("compress", 0), ("alpha", None),
                  ("jq", None), ("rff", None), ("bg", (0, 0, 0)), ("seek", 0)):
         if k in case and case[k] != v:
@@ -405,10 +578,12 @@ def simpler(case):
 def shrink(case, rounds=12):
     cur = case
     for _ in range(rounds):
+        if getattr(core, "over_budget", lambda: False)():
+            break  # optional work: the failing input found so far is reported as it is
         cands = simpler(cur)
         if not cands:
             break
-        codes, errors, _ = evaluate(cands, tag="c03s")
+        codes, errors, _, cands = evaluate(cands, tag="c03s")
         nxt = next((c for c, k in zip(cands, codes) if k >= 2), None)
         if nxt is None or errors:
             break
@@ -422,13 +597,26 @@ def describe(c):
     s = c["src"]
     src = s.get("name") or f"{s['mode']} {s['w']}x{s['h']} {s.get('fmt') or 'in-memory'}" + (f" x{s['frames']}f" if s.get("frames", 1) > 1 else "")
     extra = f" z={c['z']} blend={int(c['blend'])}" if c["style"] == "kitty" else f" jq={c.get('jq')} rff={c.get('rff')}"
-    return (f"{c['style']}/{c.get('term', '-')}/{c['method']} src={src} via {c['source']} cells={c['size']} "
+    setm, over = set_over(c)
+    extra += f" set_render_method({c.get('set_method', setm)!r}{' on the class' if c.get('set_level') == 'class' else ''}) override={over!r}"
+    if c.get("envchg"):
+        g = c["envchg"]
+        if g.get("at") is None:
+            extra += " (environment constant during the render; reads counted)"
+        else:
+            extra += (f" ENVIRONMENT CHANGES after read {g['at']} of the render: cell size -> {g.get('cell')}, "
+                      f"terminal size -> {g.get('term')}, cell ratio -> {g.get('ratio')}")
+    return (f"{c['style']}/{c.get('term', '-')}/{c['method']} src={src} via {c['source']} "
+            f"cells={c['size']}{' (dynamic)' if c.get('dynamic') else ''} "
             f"cell={c['cell']} alpha={c['alpha']} c{c['compress']} mix={int(c['mix'])}{extra} via={c.get('via', 'format')}")
 
 
 def signature(c):
     keep = {k: c.get(k) for k in ("unit", "len", "level", "csize", "style", "method", "size", "cell", "alpha",
-                                   "compress", "source", "jq", "rff", "term", "via", "blend", "mix", "z", "seek")}
+                                   "compress", "source", "jq", "rff", "term", "via", "blend", "mix", "z", "seek",
+                                   "set_method", "set_level", "override", "dynamic", "term_size")}
+    if c.get("envchg"):
+        keep["envchg"] = [c["envchg"].get(k) for k in ("at", "cell", "term", "ratio")]
     s = c.get("src") or {}
     keep["src"] = [s.get("kind"), s.get("name"), s.get("mode"), s.get("w"), s.get("h"), s.get("fmt"), s.get("frames")]
     return core.sig(keep)
@@ -461,7 +649,10 @@ def run(ctx):
     if ctx.replay:
         cases = [ctx.replay["replay"]["case"]]
     else:
-        cases = unit_cases(rng, ctx.quick) + corpus(rng)
+        cases = unit_cases(rng, ctx.quick) + corpus(rng) + method_pair_cases(rng) + env_change_cases(rng, ctx.quick)
+        if not ctx.quick:
+            for _ in range(5):
+                cases += method_pair_cases(rng) + env_change_cases(rng, False)
         nk, na, ni, nia = (70, 12, 90, 14) if ctx.quick else (1500, 150, 1500, 150)
         cases += [kitty_random_case(rng) for _ in range(nk)]
         cases += [kitty_anim_case(rng) for _ in range(na)]
@@ -472,10 +663,13 @@ def run(ctx):
                           "src": {"kind": "fixture", "name": "anim.webp"}, "source": "file", "alpha": [0.5],
                           "mix": False, "compress": 4, "jq": None, "rff": None, "term": "iterm2", "via": "format",
                           "z": 0, "blend": True})
-    codes, errors, impl = evaluate(cases)
+    codes, errors, impl, cases = evaluate(cases)
     hist = {"oversize_cases_not_judged": len(OVERSIZE), "kind": {}, "method": {}, "source": {}, "alpha": {}, "compress": {}, "cell_height": {},
             "chunks_per_transmission": {}, "payload_b64_len_mod_4096": {"0": 0, "4": 0, "4092": 0, "other": 0},
-            "src_mode": {}, "iterm2_untouched": 0, "iterm2_jpeg": 0, "raised": 0}
+            "src_mode": {}, "iterm2_untouched": 0, "iterm2_jpeg": 0, "raised": 0,
+            "set_method_x_override": {}, "override_differs_from_set_method": 0,
+            "environment_change_after_read": {}, "env_change_inside_render_image": 0,
+            "cell_size_reads_inside_render_image": {}, "dynamic_size": 0}
 
     def inc(d, k):
         d[str(k)] = d.get(str(k), 0) + 1
@@ -496,6 +690,17 @@ def run(ctx):
             inc(hist["compress"], c["compress"])
             inc(hist["cell_height"], (c["cell"][1] - 1) // 10 * 10 + 1)
             inc(hist["src_mode"], r.get("mode"))
+            setm, over = set_over(c)
+            inc(hist["set_method_x_override"], f"{c['style']}:{setm}/{over}")
+            hist["override_differs_from_set_method"] += bool(setm and over and setm != over)
+            hist["dynamic_size"] += bool(c.get("dynamic"))
+            inc(hist["cell_size_reads_inside_render_image"], len(r.get("reads_in", [])))
+            if c.get("envchg"):
+                at = c["envchg"]["at"]
+                inc(hist["environment_change_after_read"], at)
+                # the change lands between two reads made inside _render_image
+                first_in = next((k for k, t in enumerate(r.get("reads", [])) if t.endswith("*")), None)
+                hist["env_change_inside_render_image"] += bool(at is not None and first_in is not None and first_in < at < r["n_reads"])
             if r.get("raised"):
                 hist["raised"] += 1
                 continue
@@ -529,9 +734,10 @@ def run(ctx):
             if kind not in shrunk_kinds and not ctx.replay:  # shrink the first failure of each kind only
                 shrunk_kinds.add(kind)
                 small = shrink(cases[i])
-                k2, _, impl2 = evaluate([small], tag="c03r")
+                k2, _, impl2, _ = evaluate([small], tag="c03r")
                 r2 = impl2[0]
-            obs = {k: r2.get(k) for k in ("raised", "pix", "lex_ok", "rawlen", "rsize", "untouched", "size_kept", "pix_error")}
+            obs = {k: r2.get(k) for k in ("raised", "raised_msg", "pix", "lex_ok", "rawlen", "rsize", "untouched", "size_kept",
+                                          "pix_error", "reads", "reads_in")}
             first_bad = first_ill_formed(r2.get("items", []))
             if r2.get("oscs"):
                 obs["oscs(size=,decoded,kind,w,h)"] = [[o["keys"][0], o["declen"], o["kind"], o["w"], o["h"]] for o in r2["oscs"][:4]]
@@ -556,7 +762,15 @@ def run(ctx):
                 "iterm2 every method x terminal at the read-from-file boundary; native animation from file / PIL) + "
                 "random renders over method, cells 1-10 x 1-6, cell 1-14 x 1-40, source mode/format/kind "
                 "(PIL, PIL-from-file, file; PNG JPEG WEBP GIF; animated with seek), alpha None/float/#/colour, "
-                "compress 0-9, z, mix, blend, jpeg quality, read_from_file, dynamic sizes.  Non-trivial: some "
+                "compress 0-9, z, mix, blend, jpeg quality, read_from_file, automatic sizes + "
+                "every (set_render_method() value incl. none / on the class / any letter case, per-render override incl. "
+                "none) pair of kitty {lines, whole} and iterm2 {lines, whole, anim} x up-scaled / down-scaled / fewer "
+                "source rows than lines, source height not a multiple of the line count (in half of the random renders "
+                "the two are drawn independently as well) + renders DURING which the environment changes (cell size "
+                "smaller / larger / narrower, with another terminal size and cell ratio) after the n-th environment "
+                "read, for every n below the number of reads of that render, fixed and dynamic sizes, kitty and "
+                "iterm2, LINES and WHOLE (iterm2 WHOLE from a readable file whose area lies between the two render "
+                "areas, so that the gate's second read decides).  Non-trivial: some "
                 "transmission has >= 2 chunks or an exact multiple of 4096, or LINES with >= 2 lines, or an iterm2 "
                 "case with several lines / WHOLE / ANIM; distinct by case hash.",
         "samples": [describe(c) for c in (cases[:1] + cases[130:133] + cases[-2:])],
@@ -571,6 +785,10 @@ def run(ctx):
             "round trip — observed at run time against a fresh copy of the source, not proved; JPEG output is compared by "
             "format, mode and size only",
             "io.StringIO.read(n) / io.BytesIO.read(n) return the next n items (firstn/skipn)",
+            "the library learns the cell size / terminal size / cell ratio only through get_cell_size / "
+            "get_terminal_size / get_cell_ratio (wrapped under every name a term_image module holds them); a change "
+            "of the environment is observable by a render only at such a read, so 'the environment changes after "
+            "the n-th read' for every n enumerates every interleaving of one change with one render",
         ],
         "trusted": ["impl_c03.py's lexer of the output (fail-closed regular expression over APC G..ST, OSC 1337..ST, CSI, LF)",
                     "tx_consts.py (ast-only translator of the chunk size, control keys/defaults and iterm2 header f-strings)"],
